@@ -4,6 +4,7 @@
 mod c04;
 mod c05;
 mod c06;
+mod c08;
 mod c10;
 mod c11;
 mod c12;
@@ -35,6 +36,7 @@ fn main() {
         "fields" => c05::run(rest),
         "rules" => c04::run(rest),
         "variants" => c14::run(rest),
+        "json" => c08::run(rest),
         "datetime" => c11::run(rest),
         "validate" => c13::run(rest),
         "parse1" => {
